@@ -591,6 +591,8 @@ func (s *Sim) step(op *Op) {
 		s.opGC(op)
 	case KMisuse:
 		s.opMisuse(op)
+	case KBigBatch:
+		s.opBigBatch(op)
 	case KMatrix:
 		s.opMatrix(op)
 	case KCodec:
